@@ -150,6 +150,8 @@ def _install_common(it, cache_checks):
     def cache_set(it_, a, k):
         key, v = a
         sel = _key_parts(it_, key)
+        fns = [x for x in (key if isinstance(key, tuple) else ()) if isinstance(x, SymObj) and x.name == "fn"]
+        it_.ctx.prove("aux/answer-for-a-function-that-is-not-instrumented-is-not-memoised", bool(fns) and fns[0].attrs.get("__ptera_info__", 0) is not None)
         i = sel.attrs["_index"]
         cache_checks.append((i, v))
         return None
@@ -181,7 +183,13 @@ def u_proceed(c):
                                           axioms=lambda it_, env, i: PLOG.axioms(i) + NS.axioms(i))}
     pairs = SymSeq("handler_pairs", n, lambda i: _mk_pair_sym(it, i))
     hc = mk_obj(it, O, "HandlerCollection", handler_pairs=pairs)
-    fn = SymObj("fn", Val.ref(z3.IntVal(c.new_id())), attrs=dict(_FN_NAMES))
+    # the function may not be instrumented any more (an activation that began when it was, e.g. a generator still running): then nothing
+    # fits, and that answer only holds for this activation -- it is not memoised
+    tooled_now = bool(c.choose(2, "function-still-instrumented"))
+    fn = SymObj("fn", Val.ref(z3.IntVal(c.new_id())), attrs=dict(_FN_NAMES, __ptera_info__={} if tooled_now else None), closed=True)
+    if not tooled_now:
+        # (what the memo already holds was computed while the function was instrumented and still stands; everything else does not fit)
+        c.assume(z3.ForAll([z3.Int("ii")], z3.Implies(z3.Not(p_cached(z3.Int("ii"))), z3.Not(p_fits(z3.Int("ii"))))))
     st, res = run(it, it.getattr(hc, "proceed"), [fn])
     c.prove("no-raise", st == "ok")
     if st != "ok":
@@ -248,11 +256,22 @@ def u_proceed_b(c):
         pairs.append((sel, acc))
         meta.append((m, sel, acc, kids))
     hc = mk_obj(it, O, "HandlerCollection", handler_pairs=list(pairs))
-    fn = SymObj("fn", Val.ref(z3.IntVal(c.new_id())), attrs=dict(_FN_NAMES))
+    tooled_now = bool(c.choose(2, "function-still-instrumented"))
+    if not tooled_now:
+        for m, _, _, _ in meta:
+            m["fits"] = False  # nothing fits a function that has no table any more (contract of fits_selector)
+    fn = SymObj("fn", Val.ref(z3.IntVal(c.new_id())), attrs=dict(_FN_NAMES, __ptera_info__={} if tooled_now else None), closed=True)
     st, res = run(it, it.getattr(hc, "proceed"), [fn])
     c.prove("no-raise", st == "ok")
     if st != "ok":
         return
+    memo = it.get_global(O, "_selector_fit_cache")
+    stored = [k_ for k_ in memo if isinstance(k_, tuple) and any(x is fn for x in k_)] if isinstance(memo, dict) else None
+    c.prove("aux/answer-for-a-function-that-is-not-instrumented-is-not-memoised", stored is not None and (tooled_now or stored == []),
+            note=f"memo entries for the function: {stored}")
+    c.prove("aux/memo-keyed-by-the-function-object-and-the-selector", stored is not None and (not tooled_now or sorted(map(id, [k_[1] for k_ in stored if len(k_) == 2]))
+                                                                                         == sorted({id(s_) for s_ in fits_calls})),
+            note=f"{stored}")
     itor, nxt = res
     exp_pairs, exp_reg, exp_forks = [], [], []
     fi = 0
